@@ -509,6 +509,15 @@ class Interp:
                 raise Unsupported("unpacking")
             for t, v in zip(target.elts, vals):
                 self.bind(t, v, env)
+        elif isinstance(target, ast.Subscript) and isinstance(target.slice, ast.Slice):
+            base = self.ev(target.value, env)
+            sl = target.slice
+            lo = None if sl.lower is None else self.ev(sl.lower, env)
+            hi = None if sl.upper is None else self.ev(sl.upper, env)
+            st = None if sl.step is None else self.ev(sl.step, env)
+            if not isinstance(base, list) or not all(x is None or isinstance(x, int) for x in (lo, hi, st)):
+                raise Unsupported("slice store %s" % text(target))
+            base[slice(lo, hi, st)] = list(self.iterate(value))
         elif isinstance(target, ast.Subscript):
             base = self.ev(target.value, env)
             idx = self.ev(target.slice, env)
